@@ -340,10 +340,10 @@ func TestC18(t *testing.T) {
 			continue
 		}
 		c := c18Case{Src: string(b), Tmpl: strings.HasSuffix(f, ".php"), Feature: "corpus-intact", Kind: "span"}
-		rec.Label("span.corpus-intact", strings.TrimPrefix(f, "/repo/"))
+		rec.Label("span.corpus-intact", strings.TrimPrefix(f, sb.Repo()+"/"))
 		rec.NonTrivial(c.Src)
 		for _, fl := range c18JudgeSpans(pool, rec, c) {
-			fl.Detail = strings.TrimPrefix(f, "/repo/") + ": " + fl.Detail
+			fl.Detail = strings.TrimPrefix(f, sb.Repo()+"/") + ": " + fl.Detail
 			fl.Case = c18Case{Src: "file:" + f, Tmpl: c.Tmpl, Feature: c.Feature, Kind: "span"}
 			rec.Fail(fl.Key, fl.Detail, c)
 		}
